@@ -353,6 +353,8 @@ def run_check(prop, tier, seed, repo, stages, level, rule, assumptions,
         except Harness as h:
             print("HARNESS-FAILURE property=%s %s" % (prop, h))
             return 2, None
+        for v in pv:
+            v.setdefault("stage", 0)
         merged["viols"].extend(pv)
     # known findings
     known = load_known()
